@@ -162,37 +162,7 @@ func runC01(p *Program, r *Result) {
 
 	// ---- R01.4
 	r.Rule("R01.4", "a stanza of another type can only produce the incorrect-identity sentinel", 4)
-	for _, nu := range nativeUnwraps {
-		fn := r.anchor(nu.pkg, nu.recv, "unwrap")
-		if fn == nil {
-			continue
-		}
-		ftb := p.TB(fn)
-		typeEq := `Field(P1.Type) == "` + nu.typeConst + `"`
-		typeNe := `Field(P1.Type) != "` + nu.typeConst + `"`
-		ok := true
-		detail := ""
-		nNe := 0
-		for _, ret := range returnsOf(fn) {
-			facts := ftb.FactsAt(ret.Block())
-			_, eq := hasFactShort(facts, typeEq)
-			_, ne := hasFactShort(facts, typeNe)
-			switch {
-			case ne:
-				nNe++
-				if !isSentinel(ftb, ret.Results[1]) || !isNilConst(ret.Results[0]) {
-					ok, detail = false, "the other-type edge returns "+short(ftb.Term(ret.Results[1]).String())+" at "+r.pos(ret)
-				}
-			case eq:
-			default:
-				ok, detail = false, "return at "+r.pos(ret)+" is reachable without the stanza type having been compared with \""+nu.typeConst+"\" (e.g. an argument check placed before the type check: foreign or grease stanzas would abort decryption)"
-			}
-		}
-		if nNe == 0 && ok {
-			ok, detail = false, "no return on the other-type edge"
-		}
-		r.Check(ok, fn.String(), "type-gate", "", "first test is Type == \""+nu.typeConst+"\"; the other edge returns the sentinel", detail)
-	}
+	checkTypeGate(p, r)
 
 	// ---- recipes
 	r.Rule("R01.5-8", "wrap/unwrap, payload key, STREAM and armor recipes of both halves equal the specification table", 40)
@@ -319,4 +289,41 @@ func checkSentinelLoop(p *Program, r *Result, fn *ssa.Function, callee string) {
 	default:
 		r.OK(fn.String(), "sentinel-loop", r.pos(call), "continue only under errors.Is(err, ErrIncorrectIdentity); other errors returned; success ends the loop")
 	}
+}
+
+// checkTypeGate is rule R01.4 (shared with C04): in each native unwrap the
+// first test is the stanza type and the other edge returns the sentinel.
+func checkTypeGate(p *Program, r *Result) {
+	for _, nu := range nativeUnwraps {
+		fn := r.anchor(nu.pkg, nu.recv, "unwrap")
+		if fn == nil {
+			continue
+		}
+		ftb := p.TB(fn)
+		typeEq := `Field(P1.Type) == "` + nu.typeConst + `"`
+		typeNe := `Field(P1.Type) != "` + nu.typeConst + `"`
+		ok := true
+		detail := ""
+		nNe := 0
+		for _, ret := range returnsOf(fn) {
+			facts := ftb.FactsAt(ret.Block())
+			_, eq := hasFactShort(facts, typeEq)
+			_, ne := hasFactShort(facts, typeNe)
+			switch {
+			case ne:
+				nNe++
+				if !isSentinel(ftb, ret.Results[1]) || !isNilConst(ret.Results[0]) {
+					ok, detail = false, "the other-type edge returns "+short(ftb.Term(ret.Results[1]).String())+" at "+r.pos(ret)
+				}
+			case eq:
+			default:
+				ok, detail = false, "return at "+r.pos(ret)+" is reachable without the stanza type having been compared with \""+nu.typeConst+"\" (e.g. an argument check placed before the type check: foreign or grease stanzas would abort decryption)"
+			}
+		}
+		if nNe == 0 && ok {
+			ok, detail = false, "no return on the other-type edge"
+		}
+		r.Check(ok, fn.String(), "type-gate", "", "first test is Type == \""+nu.typeConst+"\"; the other edge returns the sentinel", detail)
+	}
+
 }
